@@ -177,7 +177,10 @@ prop('C16', title='Issued certificates are well-formed, correctly named and veri
      level_text='Deciding check (bounded): self_sign / sign_req / derive_cert / new_cert over EC/RSA/Ed25519 subject x issuer, many ECDSA '
                 'signature lengths, start times at year and leap boundaries, naive/UTC/offset datetimes: well-formed element (independent '
                 'walker), name, content, content type, exact validity instants, verification, key locator, parse-back.',
-     level_note='datetime/strftime and the signature primitives are assumed.', technique=T_BOUNDED)
+     level_note='datetime/strftime and the signature primitives are assumed. Deductive fragments (pyvc/z3): new_cert (thorough tier: one '
+                'well-formed Data element, name = key / issuer / version, content, content type, validity from the requested instants in '
+                'UTC, covered range, exact signature length) and, against its contract, self_sign / sign_req / derive_cert (issuer '
+                'component, subject key / public key / signer passed on, validity start and end as stated).', technique=T_BOUNDED)
 
 prop('C15', title='Keychain contents, defaults and signers stay consistent over any history', level='fault_enumeration',
      bounded=[('bounded.c15', 'run', SH)],
